@@ -41,6 +41,12 @@
 JLS_CPP_GUARD_START
 
 #define JLS_BUF_DEFAULT_SIZE (1 << 20)   // 1 MiB
+#ifdef JLS_VERIF
+// verification hook: runtime-settable initial buffer size, off by default
+extern size_t jls_verif_buf_default_size;
+#undef JLS_BUF_DEFAULT_SIZE
+#define JLS_BUF_DEFAULT_SIZE (jls_verif_buf_default_size)
+#endif
 #define JLS_BUF_STRING_SIZE (1 << 20)    // 1 MiB
 
 /**
